@@ -286,6 +286,36 @@ def check_xz(ck, prog_xz):
         for b, i, e in g.iter_elems() for c in ex.calls(e, into_refs=False))
     ck.ob("C09-XZ", "too-small-noreturn", noret, common.where(g),
           "memlimit_too_small() ends in message_fatal() and has no return statement", key="XZ:noreturn")
+    # which of the two user limits applies: the compression limit only when compressing; --decompress, --test and
+    # --list all decode and obey --memlimit-decompress
+    h = prog_xz.fn("hardware_memlimit_get", "hardware.c", target="xz")
+    ck.saw_function(h)
+    en = prog_xz.enum_with("MODE_COMPRESS", h.file)
+    sel = None
+    for b, i, e in h.iter_elems():
+        d = ex.deref(e)
+        cand = d.get("init") if d.get("k") == "decl" else (d.get("e") if d.get("k") == "ret" else None)
+        for (l, r, op, node) in ex.writes(e):
+            cand = cand or r
+        c0 = ex.strip(cand) if cand is not None else None
+        if c0 is not None and c0.get("k") == "cond" and "memlimit_" in ex.show(c0):
+            sel = (c0, e)
+    if sel is None or not en:
+        raise AnalysisBroken("hardware_memlimit_get: the selection between memlimit_compress and memlimit_decompress was not found")
+    gq = fd.FD(prog_xz, h, [fd.Key("var", "mode", domain=en.values(), label="mode")])
+    wrong = []
+    for nm, mv in sorted(en.items(), key=lambda kv: kv[1]):
+        v = gq.aeval(sel[0]["c"], gq.make_state(mode=[mv]))
+        if v is None or len(v) != 1:
+            raise AnalysisBroken("hardware_memlimit_get: cannot evaluate `%s` for mode %s" % (ex.show(sel[0]["c"]), nm))
+        arm = ex.show(ex.strip(sel[0]["t"] if list(v)[0] else sel[0]["f"]))
+        want = "memlimit_compress" if nm == "MODE_COMPRESS" else "memlimit_decompress"
+        if arm != want:
+            wrong.append((nm, arm, want))
+    ck.ob("C09-XZ", "limit-by-mode", not wrong, common.where(h, sel[1]),
+          "hardware_memlimit_get: MODE_COMPRESS -> memlimit_compress, every other mode -> memlimit_decompress" if not wrong else
+          "hardware_memlimit_get(): for %s the limit used is %s instead of %s: --memlimit-decompress is ignored in that mode "
+          "(e.g. xz --list / --test run without the user's limit)" % wrong[0], key="XZ:limit-by-mode")
 
 
 # (id, function, file, selector: the expression/condition that mentions all of `select`, required members, why)
